@@ -9,11 +9,47 @@ open Elys.Blocks
 
 structure S where
   started : Bool := false
+  redistribute : String := ""     -- cons_redistribute module account
+  distribution : String := ""     -- distribution module account
   deriving Inhabited
+
+def mkInts (l : List Int) : Json := Json.arr (l.map mkInt).toArray
+
+def decPairs (j : Json) : List (String × Int) :=
+  ((j.getArr?.toOption.getD #[]).toList).filterMap fun p =>
+    match p.getArr?.toOption with
+    | some a => if a.size = 2 then some (a[0]!.getStr?.toOption.getD "", (jInt? a[1]!).getD 0) else none
+    | none => none
+
+def lookup (l : List (String × Int)) (d : String) : Int := ((l.find? (fun p => p.1 == d)).map (·.2)).getD 0
+
+/-- correspondence of the begin-block fee allocation for the base currency: from the community tax and the validators' tokens the
+block started from and the fees moved out of the redistribution account, the model's loop (`allocate`, truncated fractions) must
+succeed, and the reward it gives each validator must be the one x/distribution's own `rewards` events report, in order -/
+def feeAllocation (s : S) (i : Nat) (j : Json) : List Json :=
+  let pre := fld j "distrPre"
+  if pre == .null then [] else
+  let usdc := (fStr? pre "usdc").getD ""
+  let fees := ((parseMoves (fld j "beginMoves")).filter (fun m => m.kind == "send" && m.src == s.redistribute && m.dst == s.distribution && m.denom == usdc)).foldl (fun a m => a + m.amt) 0
+  if fees ≤ 0 then [] else
+  let ts := ((fld pre "valTokens").getArr?.toOption.getD #[]).toList.map (fun x => (jInt? x).getD 0)
+  let T := sumL ts
+  let rep := P - (fInt? pre "tax").getD 0
+  let model := (ts.map (fun t => valReward (fees * P) rep (fracTrunc t T))).filter (· != 0)
+  let impl := (((fld j "beginRewards").getArr?.toOption.getD #[]).toList.filterMap fun r =>
+    match r.getArr?.toOption with
+    | some a => if a.size = 3 && a[1]!.getStr?.toOption.getD "" == usdc then some ((jInt? a[2]!).getD 0) else none
+    | none => none)
+  let info := Json.mkObj [("rewards", mkInts model), ("fees", mkInt fees), ("T", mkInt T), ("rep", mkInt rep)]
+  match allocate fracTrunc (fees * P) rep T ts (fees * P) with
+  | .ok _ => if model == impl then [] else [verdictDiff i "feeAllocation" info (Json.mkObj [("rewards", mkInts impl)])]
+  | .error _ => [verdictDiff i "feeAllocation" (Json.str "the allocation loop goes negative") (Json.mkObj [("rewards", mkInts impl)])]
 
 def handle (s : S) (i : Nat) (j : Json) : S × List Json :=
   match fStr? j "t" with
-  | some "hist.begin" => ({ started := true }, [verdictOk i])
+  | some "hist.begin" =>
+    let names := parseNames j
+    ({ started := true, redistribute := addrOf names "mod:cons_redistribute", distribution := addrOf names "mod:distribution" }, [verdictOk i])
   | some "hist.step" =>
     let failed := (fld j "blockErr") != .null || (fld j "blockPanic") != .null
     -- the environment the harness builds: usdc entry, valid revenue address, non-zero blocks per year; fee conversions may fail
@@ -25,7 +61,9 @@ def handle (s : S) (i : Nat) (j : Json) : S × List Json :=
           [verdictViol i "C18.block_ok" (Json.mkObj [("h", fld j "h"), ("blockErr", fld j "blockErr"), ("blockPanic", fld j "blockPanic"),
             ("txs", Json.arr (((fld j "txs").getArr?.toOption.getD #[]).map (fun t => fld t "kind"))),
             ("shocks", fld j "shocks"), ("lastShock", ((fld j "shocks").getArr?.toOption.getD #[]).back?.getD .null)])])
-    else (s, [verdictOk i])
+    else
+      let ds := feeAllocation s i j
+      (s, if ds.isEmpty then [verdictOk i] else ds)
   | some "stats" => (s, [])
   | _ => (s, [verdictBad i "unknown t"])
 
